@@ -151,6 +151,35 @@ Theorem C03_last_entry_stops :
 Proof. exact last_entry_stops. Qed.
 Print Assumptions C03_last_entry_stops.
 
+(* repeat wraps around: at the last entry of a list with repeat on (consume/random/single off)
+   the end of the track starts the first entry *)
+Theorem C03_repeat_wraps :
+  forall shuf f (x c : tlt) mid len w,
+  World.tl w = x :: mid ++ [c] -> NoDup (map tlid (World.tl w)) ->
+  consume w = false -> random w = false -> single w = false -> repeat w = true ->
+  settled_on w c -> pstate w = Playing -> a_atf_done w = false -> len_of w (trk c) = Some len ->
+  accepts w x ->
+  let w' := run_world shuf (S f) w [AboutToFinish; Deliver; Deliver] in
+  settled_on w' x /\ pstate w' = Playing /\ World.tl w' = World.tl w
+  /\ events w' = EvStarted x :: EvStateChanged Playing Playing :: EvEnded c len :: events w.
+Proof. exact repeat_wraps. Qed.
+Print Assumptions C03_repeat_wraps.
+
+(* random: one pass plays the current shuffle order entry by entry, each entry exactly once
+   (the order is a permutation of the tracklist by C03_next_random_reshuffle and the oracle
+   hypothesis); afterwards the order is used up *)
+Theorem C03_random_pass_in_shuffle_order :
+  forall shuf f (lens : track -> Z) order c w,
+  World.tl w <> [] -> shuffled w = order ->
+  settled_on w c -> pstate w = Playing -> consume w = false -> random w = true -> single w = false ->
+  a_atf_done w = false -> script w = [] ->
+  (forall y, In y (c :: order) -> kind_of w (trk y) = Playable /\ len_of w (trk y) = Some (lens (trk y))) ->
+  let w' := run_world shuf (S f) w (blocks (length order)) in
+  settled_on w' (last order c) /\ pstate w' = Playing /\ World.tl w' = World.tl w /\ shuffled w' = []
+  /\ events w' = through_events c order lens ++ events w.
+Proof. exact random_pass. Qed.
+Print Assumptions C03_random_pass_in_shuffle_order.
+
 (* non-vacuity: three playable entries, playing the first: two blocks visit 2 and 3 in order,
    the third block stops *)
 Example C03_play_through_example :
